@@ -63,14 +63,14 @@ Section ActsLevel.
       unfold follow. cbn [p_n p_stop p_val p_rest repeat app run step].
       rewrite Hup, mut_next by apply Hparent. now rewrite Nat.add_1_r.
     - apply acts_bad; [exact Hr|]. cbn [step].
-      rewrite misfit_checks; [apply mut_fail|exact He|exact Hm|apply Hchain].
+      rewrite misfit_checks; [apply mut_fail; try reflexivity; try exact He|exact He|exact Hm|apply Hchain].
     - apply acts_bad; [exact Hr|]. cbn [step].
-      rewrite misfit_block; [apply mut_fail|exact He|exact Hm|apply ctx_not_plan].
+      rewrite misfit_block; [apply mut_fail; try reflexivity; try exact He|exact He|exact Hm|apply ctx_not_plan].
     - apply acts_bad; [exact Hr|]. cbn [step].
-      rewrite misfit_seq; [apply mut_fail|exact He|exact Hm|apply ctx_not_block].
+      rewrite misfit_seq; [apply mut_fail; try reflexivity; try exact He|exact He|exact Hm|apply ctx_not_block].
     - destruct (bad_action a) as [e|] eqn:Hb.
       + apply acts_bad; [exact Hr|]. cbn [step].
-        rewrite (add_action_bad i _ a e He Hm Hb). apply mut_fail.
+        rewrite (add_action_bad i _ a e He Hm Hb). apply mut_fail; try reflexivity; try exact He.
       + destruct a as [a|]; [|discriminate Hb].
         rewrite follow_addn. cbn [run step repeat app].
         rewrite (Hadd acts a i Hb), mut_next by apply Hlive.
